@@ -37,7 +37,8 @@ PROPS["C05"] = dict(
     level="other", contracts=["contracts.extract_iter", "contracts.c13", "contracts.glue_small"],
     unit_filter=lambda u: u.name in ("C05.extract_iter", "C13.extract_child", "C13.extract", "C11.unwrap_generatorbased_contextmanager",
                                      "C09.elaborate_exit_stack"),
-    legs=[dict(name="c05_faults", cmd="PYTHONPATH={repo} " + PY312 + " legs/c05_faults.py")] + old_pythons("c05_faults", "c05_faults.py"), technique=TECH + "; bounded fault-enumeration leg",
+    legs=[dict(name="c05_faults", cmd="PYTHONPATH={repo} " + PY312 + " legs/c05_faults.py"),
+          dict(name="c17_glue_faults", cmd="PYTHONPATH={repo} " + PY312 + " legs/c17_history.py faults-only")] + old_pythons("c05_faults", "c05_faults.py"), technique=TECH + "; bounded fault-enumeration leg",
     explanation="Deductive part (all inputs, unbounded): extract_iter (whole real body, 8 loops cut by invariants), extract_child and extract "
                 "are executed symbolically from their entries: no path lets an Exception escape, the error ledger grows by exactly the "
                 "exceptions raised in order, extract_child turns it into None / the single error / an ExceptionGroup, an elaborate_frame "
